@@ -62,7 +62,7 @@ func main() {
 	}
 	tmo := *timeout
 	if tmo == 0 {
-		tmo = 5000
+		tmo = 8000
 		if *tier == "thorough" {
 			tmo = 60000
 		}
@@ -105,7 +105,7 @@ func main() {
 	var retry []*FuncResult
 	retryIdx := map[*Obl]int{}
 	for i, v := range verdicts {
-		if v.Status == "undecided" && lockSet[lockKey(*tags, v.Obl.Name)] && tmo < 60000 {
+		if v.Status == "undecided" && lockSet[lockKey(*tags, v.Obl.Name)] == "q" && tmo < 60000 {
 			for _, fr := range results {
 				if fr.Name == v.Func {
 					retry = append(retry, &FuncResult{Name: fr.Name, Spec: fr.Spec, VC: fr.VC, Obls: []*Obl{v.Obl}})
